@@ -171,6 +171,16 @@ func (s *spec) apply(o op) int {
 			s.h[l][g] = 0
 		}
 		return 2
+	case "unlockdb":
+		for _, l := range []int{iPending, iReserved, iShared} {
+			s.h[l][g] = 0
+		}
+		return 2
+	case "unlockshm":
+		for _, l := range []int{iWrite, iCkpt, iRecover, iRead0, iRead1, iRead2, iRead3, iRead4, iDMS} {
+			s.h[l][g] = 0
+		}
+		return 2
 	default: // walallowed
 		if s.mstate(iWrite) == 2 {
 			return 1
@@ -204,6 +214,10 @@ func coqOp(o op) string {
 		return fmt.Sprintf("OAcquireWrite %d WAL", o.Owner)
 	case "release":
 		return fmt.Sprintf("OReleaseAll %d", o.Owner)
+	case "unlockdb":
+		return fmt.Sprintf("OUnlockDatabaseL %d", o.Owner)
+	case "unlockshm":
+		return fmt.Sprintf("OUnlockSHML %d", o.Owner)
 	}
 	return "OWalWriteAllowed"
 }
@@ -240,8 +254,16 @@ func genOps(r *common.Rand, wal bool, n int) []op {
 			ops = append(ops, op{"trylocks", owner, set})
 		case x < 50:
 			ops = append(ops, op{"tryrlocks", owner, set})
-		case x < 68:
+		case x < 62:
 			ops = append(ops, op{"unlock", owner, set})
+		case x < 65:
+			ops = append(ops, op{"unlockdb", owner, nil}) // flush of a database-file handle
+		case x < 68:
+			if wal {
+				ops = append(ops, op{"unlockshm", owner, nil}) // flush of a shm handle
+			} else {
+				ops = append(ops, op{"unlockdb", owner, nil})
+			}
 		case x < 75:
 			ops = append(ops, op{"canlock", owner, set})
 		case x < 80:
@@ -326,6 +348,12 @@ func runSeq(c *common.Ctx, r *common.Rand, wal bool, ops []op, cf *common.CaseFi
 					internal[o.Owner] = gs
 					code = 1
 				}
+			case "unlockdb":
+				db.UnlockDatabase(bg, uint64(o.Owner))
+				code = 2
+			case "unlockshm":
+				db.UnlockSHM(bg, uint64(o.Owner))
+				code = 2
 			case "release":
 				if gs := internal[o.Owner]; gs != nil {
 					gs.Unlock()
